@@ -488,6 +488,8 @@ def run_cli(ctx, case):
                      key="cli-crash")
             return
         _, samples, rin = sim.read_vcf(vcf)
+        if os.environ.get("C15_KEEP"):
+            os.makedirs(os.environ["C15_KEEP"], exist_ok=True); shutil.copy(out, os.path.join(os.environ["C15_KEEP"], f"{ctx.n_eval}.vcf")); shutil.copy(vcf, os.path.join(os.environ["C15_KEEP"], f"{ctx.n_eval}.in.vcf"))
         _, samples_o, rout = sim.read_vcf(out)
         tin, tout = sim.read_vcf_text(vcf)[1], sim.read_vcf_text(out)[1]
         phased_samples = [o["only_sample"]] if o.get("only_sample") else list(sc.samples) + list(sc.extra_samples)
